@@ -272,7 +272,7 @@ RepackG(b) ==
        /\ \A i \in nl : par[i] \subseteq nl \cup Reach            \* what stays behind keeps its ancestry
        /\ packs' = np /\ loose' = nl
        /\ midx' = IF midx.on /\ midx.packs \cap gone # {} THEN NoMidx ELSE midx
-       /\ bmp' = {x \in bmp : x.at \notin gone /\ ~(b /\ x.at = Reach)}
+       /\ bmp' = {x \in bmp : x.at \notin gone /\ x.at # Reach}       \* the pack is written anew, its old bitmap goes
                  \cup (IF b THEN {[at |-> Reach, for |-> Reach, sel |-> Tips]} ELSE {})
     /\ UNCHANGED <<n, par, tref, lref, pref, cg, idxv>>
 
@@ -281,14 +281,18 @@ RepackG(b) ==
 \* (git commit-graph write --reachable / dulwich refs=tips), "tips" dulwich reachable=False
 BuildCg(w, mode) ==
     /\ Lvl /\ act' = <<"BuildCg", w, mode>> /\ Tips # {} /\ (w = "git" => mode = "reach")
+    /\ mode = "tips" => ~CgWriterCloses        \* a writer that closes the set makes "tips" the same as "reach"
     /\ LET C == CASE mode = "all" -> PresentS [] mode = "reach" -> Reach [] mode = "tips" -> Tips IN
        cg' = [on |-> TRUE, commits |-> IF CgWriterCloses THEN Anc(C) ELSE C,
               closed |-> CgWriterCloses \/ ClosedIn(C, C)]
     /\ cg' # cg
     /\ UNCHANGED <<prim, midx, bmp, idxv>>
+\* dulwich write_midx() indexes the packs present; git multi-pack-index write (2.39) also keeps every pack
+\* named by the midx it finds, whether or not that pack still exists
 BuildMidx(w) ==
-    /\ Lvl /\ act' = <<"BuildMidx", w>> /\ packs # {} /\ midx # [on |-> TRUE, packs |-> packs]
-    /\ midx' = [on |-> TRUE, packs |-> packs]
+    /\ Lvl /\ act' = <<"BuildMidx", w>> /\ packs # {}
+    /\ midx' = [on |-> TRUE, packs |-> IF w = "git" /\ midx.on THEN packs \cup midx.packs ELSE packs]
+    /\ midx' # midx
     /\ UNCHANGED <<prim, cg, bmp, idxv>>
 \* dulwich generate_pack_bitmaps(refs): every pack without an accepted bitmap gets one for the tips it holds
 BuildBmp ==
